@@ -250,3 +250,24 @@ def index_advances_rule(run, f, rid):
             run.fail(rid, b.npath + "/index-advances", b.loc(), "%s: after the retry loop leaves the current element complete, the next array can be built without advancing the suffix index (%d path(s)): the kernel is handed the finished element again" % (nm, bad))
         else:
             run.ok(rid, b.npath + "/index-advances", {"paths_to_next_build": n_ex})
+
+
+def no_reissue_while_head_wrong_rule(run, f, rid):
+    """CONDITIONAL on the known finding F11 (the head-offset of the vectored wrappers is measured from the END of the current
+    element, i.e. it is always 0; keys C16-HEAD / C17-HEAD).  As long as that offset is wrong, the only thing that keeps it
+    harmless after a successful SHORT transfer is that the wrapper does not issue the inner call again for the same request:
+    today every vectored wrapper falls through to the errno inspection (errno was reset, the kind is none of the retry kinds)
+    and returns.  A retry added there (`continue`) hands the kernel the element from its start again: bytes already sent are
+    sent twice, buffers already filled are overwritten.  A correct implementation DOES retry after a short transfer -- with
+    the right offset; when F11 is repaired this clause has to go, and C16-HEAD / C17-HEAD then carry the obligation."""
+    run.rule(rid, "while the head offset is the known-wrong one (F11), no vectored wrapper re-issues its inner call after a call that succeeded", floor=6, template="P3 fixpoint (event absent), conditional on a known finding")
+    for nm, b in nio._each(run, f, rid, nio.VEC_READ + nio.VEC_WRITE):
+        nf, w = nio.walk(b)
+        if not nf.ok:
+            run.fail(rid, b.npath + "/shape", b.loc(), "wrapper shape not recognised (result local / inner call)")
+            continue
+        ev = [e for e in w.events if e[0] == "reissue-after-success"]
+        if ev:
+            run.fail(rid, b.npath + "/reissue-after-success", b.loc(ev[0][2]), "%s issues its inner call again after a call that succeeded, with the head offset that is known to be wrong (always 0): the retry starts at the beginning of the current element, so bytes of it are transferred twice" % nm, detail={"lines": sorted({e[2] for e in ev})})
+        else:
+            run.ok(rid, b.npath + "/no-reissue", {"states": w.visited})
